@@ -4,7 +4,9 @@ import json, os
 V = '/verif'
 base = json.load(open('/root/.vp/BASELINE.json'))
 props = [json.loads(l) for l in open(V + '/properties.jsonl')]
-TECH = "symbolic execution of the real code from go/ssa to SMT-LIB2; every assertion decided by z3 for all inputs within stated bounds"
+TECH = ("symbolic execution of the real code from go/ssa to SMT-LIB2; every assertion decided by z3 for all inputs within stated bounds; "
+        "a counterexample is replayed against the natively compiled code before it is reported where the harness is pure or closed-world "
+        "(tools/replay.py), otherwise reported as the solver's verdict on the encoding")
 LEVEL = ("bounded symbolic verification of the real code: the anchored functions are executed symbolically from go/ssa "
          "(regenerated from /repo's working tree on every run) and every assertion is an SMT query decided for all inputs within the "
          "stated bounds; silent outside the bounds (listed in the evidence file)")
